@@ -2,6 +2,7 @@ import OpusProofs.DtxRun
 import OpusProofs.DtxRange
 import OpusProofs.DtxBudget
 import OpusProofs.DtxDecodeSkel
+import OpusProofs.SilkVadOut
 /-
   C20 — DTX sends bounded runs of tiny packets when inactive and resumes at once.
 
@@ -314,6 +315,44 @@ example : Regular Ex.cfgOff ∧ pkts Ex.cfgOff (initSt 1) (List.replicate 40 Ex.
    DTX off or on, and it is never a DTX packet (the in-DTX query stays 0 during speech) -/
 example : pkts Ex.cfgOff (initSt 1) [Ex.speech, Ex.speechBust] = [Pkt.normal, Pkt.bust] ∧
     run Ex.cfg (initSt 1) [Ex.speech, Ex.speechBust] = [(Pkt.normal, false), (Pkt.bust, false)] := by decide
+
+/-! ## The SILK voice activity detector (the detector in charge when the analysis does not run) -/
+
+section SilkVad
+open Opus.SilkVad
+
+/-- `silk_VAD_Init` establishes the VAD state invariant: `0 ≤ counter ≤ 1000`, `NoiseLevelBias ≥ 1`,
+    `0 ≤ NL ≤ 2^24-1`, `1 ≤ inv_NL ≤ int32_MAX`, `0 ≤ XnrgSubfr`, `1 ≤ NrgRatioSmth_Q8`, `|HPstate| ≤ 2^14`. -/
+theorem vad_init_invariant : VadInv vadInit := vadInv_init
+
+/-- `silk_VAD_GetSA_Q8_c` is total and in range, for every reachable VAD state and every input frame:
+    from any state satisfying the invariant (so: after `silk_VAD_Init` and any history of calls), for any
+    legal `frame_length` (a multiple of 8, at most 512) and any frame, the call returns — no assertion, no
+    read outside the frame, every divisor positive (`nrg`, `inv_NL`, `NL+1`, `(NL>>8)+1`:
+    `noiseBand_inv`, `snrBand_range`) — the invariant holds again, `NoiseLevelBias` is unchanged, and
+    `speech_activity_Q8 ∈ [0,255]`, `input_tilt_Q15 ∈ [-32768,32766]`, `input_quality_bands_Q15 ∈ [0,32767]`. -/
+theorem vad_total_in_range (st : VadState) (hinv : VadInv st) (fsKHz frameLength : Nat)
+    (hlen : frameLength ≤ 512 ∧ frameLength % 8 = 0) (pIn : List Int) (hp : frameLength ≤ pIn.length) :
+    ∃ o, getSA st fsKHz frameLength pIn = .ok o ∧ VadInv o.st ∧ OutOk o ∧ o.st.bias = st.bias :=
+  getSA_ok st hinv fsKHz frameLength hlen pIn hp
+
+/- first frame of a fresh detector on digital silence (16 kHz, 20 ms): inactive (2 < 13) -/
+example : (match getSA vadInit 16 320 (List.replicate 320 0) with | .ok o => o.speechActivityQ8 | _ => -1) = 2 := by
+  decide +kernel
+
+/-- 32-bit range of the energy accumulators: for an int16 band signal of decimated length at most 256
+    (`frame_length ≤ 512`), every sub-frame sum of squares stays in `[0, 2^30]` (the plain C accumulation
+    cannot overflow) and the accumulation with the documented `silk_ADD_POS_SAT32` stays in
+    `[0, int32_MAX]`, whatever non-negative energy was carried over from the previous frame. -/
+theorem vad_energy_fits_32bit (carry : Int) (x : List Int) (len : Nat) (hc : 0 ≤ carry ∧ carry ≤ 2147483647)
+    (hx : ∀ y ∈ x, -32768 ≤ y ∧ y ≤ 32767) (hlen : len ≤ 256) :
+    (0 ≤ (bandEnergy carry x len).1 ∧ (bandEnergy carry x len).1 ≤ 2147483647) ∧
+    (0 ≤ (bandEnergy carry x len).2 ∧ (bandEnergy carry x len).2 ≤ 1073741824) :=
+  bandEnergy_range carry x len hc hx hlen
+
+example : bandEnergy 2147483000 (List.replicate 160 (-32768)) 160 = (2147483647, 40 * 4096 * 4096) := by decide +kernel
+
+end SilkVad
 
 /-! ## The decoder fed the DTX stream -/
 
